@@ -12,11 +12,11 @@ Layers (each goal is small): break-up momenta -> sub-resonance propagators (the 
 itself computed, recorded by wrapping the module-level name) -> barrier factors -> polar coefficients ->
 weighted sum (on numbers) -> decay-level product (on numbers); plus one end-to-end goal per coupling when small.
 
-Observations modelled as quirks (see LineShapes2.v): BWR_LS2.__call__ uses l = 0; MultiBWR uses one q02 (from the
-configured "mass", or - no mass configured - from the mean data mass: ParticleMultiBWR.mass() is shadowed) and min l.
-Through the decay a configured MultiBWR "mass" is a Python float, so q02 is a Python float that
-tf.cast() routes through float32 in Gamma2/Bprime_q2: decay-level propagators agree with the formula only
-to ~1e-7 relative (F32_RTOL), the same kind of effect as the GS pi literal (GS_RTOL in c15.py).
+Observations modelled as quirks (see LineShapes2.v): BWR_LS2.__call__ uses l = 0; MultiBWR uses min l for every running width.
+Hunt round 2 (repairs /verif/build/fix2_C15): every MultiBWR member is normalised at its OWN mass (multi_doms_own), the decay's
+q02 is taken at the first member's mass (was: the unrelated configured "mass" - a Python float routed through float32 - or,
+without one, the mean mass of the first data batch); the LS-decay evaluates R_i(m) whatever has_barrier_factor says
+(ls_decay_amp_opt; was: has_barrier_factor=False returned the bare g_ls, i.e. R_i = 1).
 """
 import math
 import random
@@ -101,7 +101,9 @@ def build(model, spin_k, mf, extra, dopts=None):
     (JR, PR), fb = SPIN_SETS[spin_k % len(SPIN_SETS)]
     res = {"R_BC": dict({"pair": "R_BC", "J": JR, "P": PR, "model": model}, **extra)}
     fin = {"B": fb["B"], "C": fb["C"], "D": (0, -1)}
-    cfg = ampkit.three_body_config(2.2, mf, res, top=(1, -1), fin=fin, decay_opts={"R_BC": dict({"p_break": True}, **(dopts or {}))})
+    cfg = ampkit.three_body_config(2.2, mf, res, top=(1, -1), fin=fin, decay_opts={"R_BC": {"p_break": True}})
+    if dopts:
+        cfg["decay"]["R_BC"] = list(cfg["decay"]["R_BC"]) + [dict(dopts)]   # options of the decay R_BC -> B C itself
     config = ConfigLoader(cfg)
     amp = config.get_amplitude()
     part = [p for p in amp.decay_group.resonances if str(p) == "R_BC"][0]
